@@ -20,6 +20,7 @@ let verdict = function
 let handler (op : string) (args : string list) : string =
   match op, args with
   | "selftest", [] -> b2s (arith_selftest_expected = arith_selftest_actual ())
+  | "nop", _ -> "-"
   | "consts", [] -> String.concat " " [ hex_of_num n; hex_of_num p; hex_of_num halfOrder ]
   | "seckey", [ k ] ->
       let c = Zr.to_dec (seckey_code (num_of_hex k)) in
